@@ -4,29 +4,52 @@ import BarterModel.Lemmas.KernelsAgree.RiskSM
 /-!
 # C03R — risk-check utilities and default risk manager (sub-check of C03)
 
-Statements about the model of `barter/src/risk/**` (`Model/Risk.lean`), for ALL inputs.
+Statements about the model of `barter/src/risk/**` (`Model/Risk.lean`).
 
-* `fits : Rat → Bool` is an arbitrary notion of "representable as a `Decimal`" (overflow ⇔ `fits`
-  is false); theorems that need more say so (`decFits`, the 96-bit range).
+* `fits : Rat → Bool` is an arbitrary predicate on the EXACT result of a checked operation (`none` ⇔
+  `fits` is false). Theorems quantified over `fits` (`notional_sound`, `notional_complete`,
+  `notional_none_iff`, `delta_*`, `apd_*`) are statements about the exact-arithmetic model
+  `calculate… fits`; `fits` decides only overflow of the exact result, and at `fits = decFits` the
+  model is the real `Decimal` code only where no operation rounds. That domain is explicit:
+  `decExact x` ("x is a `Decimal`": integer mantissa below 2^96, scale ≤ 28) of every INTERMEDIATE
+  product in the code's evaluation order; `notional_exact_of_no_rounding`,
+  `delta_exact_of_no_rounding` (digit form: `notional_exact_of_digits`).
+* `notionalDec` / `deltaDec` are the two helpers over `decMul`, `rust_decimal`'s multiplication WITH
+  its rounding (half-to-even to the largest scale whose mantissa fits 96 bits); this is what the
+  driver runs and what is compared with the code, also outside the exactness domain (sections D′, F′).
+  Rounding of `checked_sub` / `checked_div` is not modelled (section E is exact arithmetic).
 * `le : α → α → Bool` is `PartialOrd::le` of the checked type.
+* `spec…` functions are the documented mathematical meaning; theorems named `spec…_…` are laws of the
+  SPEC function (they never mention `calculate…`); the statements about the code's model carry the
+  hypotheses under which it equals the spec and are named without the `spec` prefix.
 
-Sections: A wrappers · B `DefaultRiskManager` · C `CheckHigherThan` · D notional · E percentage
-difference · F delta · G checks composed with the utilities (what a risk manager built from them
-decides) · H link with the engine model of C03.
+Definitional / bookkeeping (true by unfolding one definition; kept for the record, not results):
+`approved_into_item_new`, `approved_new_into_item`, `refused_new_fields`, `default_refuses_nothing`,
+`default_state_independent`, `default_kinds_independent`, `check_name`. All of section B unfolds the
+one-line model `cancels.map RiskApproved.new` of `DefaultRiskManager::check`, which is outside the
+translated subset: it is tied to the code by sampled correspondence only.
+
+Sections: A wrappers · B `DefaultRiskManager` · C `CheckHigherThan` · D notional (exact model) ·
+D′ notional over the real multiplication · E percentage difference · F delta · F′ delta over the real
+multiplication · G checks composed with the utilities (what a risk manager built from them decides) ·
+H link with the engine model of C03.
 -/
 namespace BarterModel.Props.C03R
 open BarterModel.Risk
 
 /-! ## A. `RiskApproved` / `RiskRefused` are transparent wrappers -/
 
+/-- definitional (`rfl`) -/
 theorem approved_into_item_new {α : Type} (a : α) : (RiskApproved.new a).intoItem = a := rfl
 
+/-- definitional (`rfl`) -/
 theorem approved_new_into_item {α : Type} (r : RiskApproved α) : RiskApproved.new r.intoItem = r := rfl
 
 theorem approved_new_injective {α : Type} (a b : α) (h : RiskApproved.new a = RiskApproved.new b) :
     a = b := by
   cases h; rfl
 
+/-- definitional (`rfl`) -/
 theorem refused_new_fields {α ρ : Type} (a : α) (reason : ρ) :
     (RiskRefused.new a reason).intoItem = a ∧ (RiskRefused.new a reason).reason = reason := ⟨rfl, rfl⟩
 
@@ -36,7 +59,12 @@ theorem refused_unrecoverable_iff {α : Type} (r : RiskRefused α EngineErrorKin
   cases r with
   | mk item reason => cases reason <;> simp [RiskRefused.isUnrecoverable, EngineErrorKind.isUnrecoverable]
 
-/-! ## B. `DefaultRiskManager` approves everything -/
+/-! ## B. `DefaultRiskManager` approves everything
+
+Everything in this section is about the one-line MODEL `cancels.map RiskApproved.new` /
+`opens.map RiskApproved.new` / `[]` / `[]`; `DefaultRiskManager::check` itself (`impl IntoIterator`,
+iterator adaptors) is outside the translated subset and is tied to this model by the sampled
+correspondence only (`rm` ops). -/
 
 /-- Refinement to "approves all orders": the approved outputs are the inputs, nothing is refused —
 for every state, every request type, every reason type. -/
@@ -45,6 +73,7 @@ theorem default_refines_spec {σ κ ο ρ : Type} (s : σ) (cancels : List κ) (
   simp [DefaultRiskManager.check, CheckOut.items, specApproveAll, RiskApproved.intoItem,
     RiskApproved.new, Function.comp_def]
 
+/-- definitional (`rfl`) -/
 theorem default_refuses_nothing {σ κ ο ρ : Type} (s : σ) (cancels : List κ) (opens : List ο) :
     (DefaultRiskManager.check (ρ := ρ) s cancels opens).refusedCancels = [] ∧
     (DefaultRiskManager.check (ρ := ρ) s cancels opens).refusedOpens = [] := ⟨rfl, rfl⟩
@@ -73,12 +102,12 @@ theorem default_multiplicity {σ κ ο ρ : Type} [DecidableEq κ] [DecidableEq 
   simp only [CheckOut.items, specApproveAll, Prod.mk.injEq] at h
   exact ⟨fun x => by rw [h.1], fun x => by rw [h.2.1]⟩
 
-/-- The state is never read. -/
+/-- The state is never read (definitional: the model does not mention it). -/
 theorem default_state_independent {σ σ' κ ο ρ : Type} (s : σ) (s' : σ') (cancels : List κ)
     (opens : List ο) :
     DefaultRiskManager.check (ρ := ρ) s cancels opens = DefaultRiskManager.check s' cancels opens := rfl
 
-/-- Cancels and opens do not influence each other. -/
+/-- Cancels and opens do not influence each other (definitional). -/
 theorem default_kinds_independent {σ κ ο ρ : Type} (s : σ) (cancels : List κ) (opens opens' : List ο)
     (cancels' : List κ) :
     (DefaultRiskManager.check (ρ := ρ) s cancels opens).approvedCancels =
@@ -172,10 +201,22 @@ theorem check_dec_refines_spec (limit input : Rat) :
   unfold CheckHigherThan.check specCheck leRat
   by_cases h : input ≤ limit <;> simp [h]
 
+/-- `f64`: the decision is "input <= limit" on the extended real line, NaN incomparable
+(`specCheckF64` re-spells `F64.le` through `F64.ext`; near-definitional). -/
 theorem check_f64_refines_spec (limit input : F64) :
     (CheckHigherThan.mk limit).check F64.le input = specCheckF64 limit input := by
   unfold CheckHigherThan.check specCheckF64
-  cases limit <;> cases input <;> simp [F64.le]
+  cases limit <;> cases input <;> simp [F64.le, F64.ext]
+
+/-- The infinities: a limit of +∞ passes every input but NaN, a limit of −∞ passes only −∞; an input
+of −∞ passes every limit but NaN, an input of +∞ passes only the limit +∞. -/
+theorem check_f64_infinities (x : F64) :
+    ((CheckHigherThan.mk F64.pinf).check F64.le x = .ok () ↔ x ≠ .nan) ∧
+    ((CheckHigherThan.mk F64.ninf).check F64.le x = .ok () ↔ x = .ninf) ∧
+    ((CheckHigherThan.mk x).check F64.le F64.ninf = .ok () ↔ x ≠ .nan) ∧
+    ((CheckHigherThan.mk x).check F64.le F64.pinf = .ok () ↔ x = .pinf) := by
+  simp only [check_ok_iff]
+  cases x <;> simp [F64.le]
 
 /-- The error text claims `input > limit`: true for `Decimal`. -/
 theorem check_dec_message_truthful (limit input : Rat) (e : CheckFailHigherThan Rat)
@@ -218,22 +259,35 @@ theorem check_dec_two_limits (l₁ l₂ x : Rat) :
   · have h2 : l₂ ≤ l₁ := Rat.le_of_lt (Rat.not_le.mp h)
     exact ⟨fun h' => h'.2, fun h' => ⟨Rat.le_trans h' h2, h'⟩⟩
 
+/-- definitional (`rfl`) -/
 theorem check_name : CheckHigherThan.name = "CheckHigherThan" := rfl
 
-/-! ## D. `calculate_quote_notional` = quantity × price × contract size -/
+/-! ## D. `calculate_quote_notional` = quantity × price × contract size (exact-arithmetic model)
 
-/-- Whatever is returned is the exact product. -/
+`calculateQuoteNotional fits` multiplies EXACTLY and asks `fits` about each exact product. The
+theorems of this section are true of that model for every `fits`; `fits` decides only overflow of
+the exact product. They are statements about the real `Decimal` code only under the exactness
+hypothesis of section D′ (`notional_exact_of_no_rounding`); outside it the code rounds, and the three
+theorems `notional_sound` / `notional_complete` / `notional_none_iff` read at `decFits` are FALSE of
+the code (`notional_rounds_then_overflows`, `notional_underflows_to_zero`,
+`notional_rounds_into_range`). -/
+
+/-- MODEL (exact arithmetic): whatever is returned is the exact product. Of the code only where no
+product rounds (D′). -/
 theorem notional_sound (fits : Rat → Bool) (q p c v : Rat)
     (h : calculateQuoteNotional fits q p c = some v) : v = specNotional q p c :=
   (notional_eq_some.mp h).2.2
 
-/-- A value is returned whenever neither product overflows. -/
+/-- MODEL (exact arithmetic): a value is returned whenever neither exact product overflows. Of the code
+only where no product rounds (D′): the code may round q·p up and then overflow
+(`notional_rounds_then_overflows`). -/
 theorem notional_complete (fits : Rat → Bool) (q p c : Rat) (h1 : fits (q * p) = true)
     (h2 : fits (q * p * c) = true) :
     calculateQuoteNotional fits q p c = some (specNotional q p c) :=
   notional_eq_some.mpr ⟨h1, h2, rfl⟩
 
-/-- "Returns None if overflow has occurred" — and only then. -/
+/-- MODEL (exact arithmetic): "Returns None if overflow has occurred" — and only then. Of the code: see
+`notional_none_only_on_overflow` (the overflow is that of the ROUNDED first product times the contract size). -/
 theorem notional_none_iff (fits : Rat → Bool) (q p c : Rat) :
     calculateQuoteNotional fits q p c = none ↔ fits (q * p) = false ∨ fits (q * p * c) = false :=
   notional_eq_none
@@ -265,20 +319,23 @@ theorem notional_swap_quantity_price (fits : Rat → Bool) (q p c : Rat) :
   unfold calculateQuoteNotional checkedMul
   rw [Rat.mul_comm q p]
 
-/-- Additive in the quantity (order splitting does not change total notional). -/
+/-- Law of the SPEC function: additive in the quantity (order splitting does not change total
+notional). Code side: `notional_add_quantity`. -/
 theorem specNotional_add_quantity (q₁ q₂ p c : Rat) :
     specNotional (q₁ + q₂) p c = specNotional q₁ p c + specNotional q₂ p c := by
   unfold specNotional; grind
 
+/-- Law of the SPEC function. Code side: `notional_pos` (needs exactness: `notional_underflows_to_zero`). -/
 theorem specNotional_pos (q p c : Rat) (hq : 0 < q) (hp : 0 < p) (hc : 0 < c) :
     0 < specNotional q p c :=
   Rat.mul_pos (Rat.mul_pos hq hp) hc
 
+/-- Law of the SPEC function. Code side: `notional_zero_quantity`. -/
 theorem specNotional_zero_quantity (p c : Rat) : specNotional 0 p c = 0 := by
   unfold specNotional; grind
 
-/-- With the 96-bit range: a multiplier of magnitude ≤ 1 never causes the second overflow, so the
-result is `None` exactly when quantity × price overflows. -/
+/-- MODEL (exact arithmetic) with the 96-bit range: a multiplier of magnitude ≤ 1 never causes the
+second overflow, so the result is `None` exactly when quantity × price overflows. -/
 theorem notional_small_multiplier (q p c : Rat) (hc : c.abs ≤ 1) :
     calculateQuoteNotional decFits q p c = none ↔ decFits (q * p) = false := by
   rw [notional_none_iff]
@@ -291,13 +348,179 @@ theorem notional_small_multiplier (q p c : Rat) (hc : c.abs ≤ 1) :
   · exact .inl
 
 /-- The order of the multiplications is observable: an intermediate overflow yields `None` although
-the notional itself is representable (10¹⁵ × 10¹⁵ × 10⁻¹⁰ = 10²⁰). -/
+the notional itself is representable (10¹⁵ × 10¹⁵ × 10⁻¹⁰ = 10²⁰) — in the exact model and over the
+real multiplication alike. -/
 theorem notional_intermediate_overflow :
     calculateQuoteNotional decFits 1000000000000000 1000000000000000 (1 / 10000000000) = none ∧
-    decFits (specNotional 1000000000000000 1000000000000000 (1 / 10000000000)) = true := by
+    decFits (specNotional 1000000000000000 1000000000000000 (1 / 10000000000)) = true ∧
+    notionalDec 1000000000000000 1000000000000000 (1 / 10000000000) = none := by
   decide +kernel
 
-/-! ## E. `calculate_abs_percent_difference` -/
+/-! ## D′. `calculate_quote_notional` over the real `Decimal` multiplication (`notionalDec`)
+
+`decMul a b` is what `rust_decimal` stores for `a.checked_mul(b)`: the exact product when it is a
+`Decimal` (`decExact`), otherwise the product rounded half-to-even to the largest scale ≤ 28 whose
+mantissa fits 96 bits, `none` when scale 0 does not fit. -/
+
+/-- `decExact` is "is a `Decimal`": `± m / 10^e` with `|m| ≤ 2^96 − 1`, `e ≤ 28`. -/
+theorem decExact_iff (x : Rat) :
+    decExact x = true ↔
+      ∃ (m : Int) (e : Nat), e ≤ 28 ∧ m.natAbs ≤ decMantMax ∧ x = (m : Rat) / (10 : Rat) ^ e :=
+  BarterModel.Risk.decExact_iff
+
+/-- One multiplication neither rounds nor overflows when its exact product is a `Decimal` … -/
+theorem mul_exact_of_no_rounding (a b : Rat) (h : decExact (a * b) = true) :
+    decMul a b = some (a * b) ∧ checkedMul decFits a b = some (a * b) :=
+  ⟨decMul_exact h, checkedMul_decFits_of_exact h⟩
+
+/-- … for which it suffices, in digits, that the scales add up to at most 28 and the product of the
+mantissas fits 96 bits. -/
+theorem mul_exact_of_digits (m₁ m₂ : Int) (s₁ s₂ : Nat) (hs : s₁ + s₂ ≤ 28)
+    (hm : (m₁ * m₂).natAbs ≤ decMantMax) :
+    decMul ((m₁ : Rat) / (10 : Rat) ^ s₁) ((m₂ : Rat) / (10 : Rat) ^ s₂)
+      = some (((m₁ : Rat) / (10 : Rat) ^ s₁) * ((m₂ : Rat) / (10 : Rat) ^ s₂)) :=
+  decMul_exact (decExact_mul_of_digits m₁ m₂ s₁ s₂ hs hm)
+
+/-- **The exactness domain.** When both intermediate products, in the code's evaluation order
+(`quantity · price`, then `(quantity · price) · contract_size`), are exactly representable, the real
+multiplication returns the exact product, and coincides with the exact-arithmetic model at the
+96-bit range — so every `fits`-parametric theorem of section D, read at `decFits`, is then a
+statement about the code. -/
+theorem notional_exact_of_no_rounding (q p c : Rat) (h1 : decExact (q * p) = true)
+    (h2 : decExact (q * p * c) = true) :
+    notionalDec q p c = some (specNotional q p c) ∧
+    notionalDec q p c = calculateQuoteNotional decFits q p c := by
+  have h := notionalDec_exact h1 h2
+  refine ⟨h, ?_⟩
+  rw [h, notional_complete decFits q p c (decFits_of_decExact h1) (decFits_of_decExact h2)]
+  rfl
+
+/-- The same in digits: the three scales add up to at most 28, the product of the first two
+mantissas and the product of all three fit 96 bits. -/
+theorem notional_exact_of_digits (mq mp mc : Int) (sq sp sc : Nat) (hs : sq + sp + sc ≤ 28)
+    (h1 : (mq * mp).natAbs ≤ decMantMax) (h2 : (mq * mp * mc).natAbs ≤ decMantMax) :
+    notionalDec ((mq : Rat) / (10 : Rat) ^ sq) ((mp : Rat) / (10 : Rat) ^ sp) ((mc : Rat) / (10 : Rat) ^ sc)
+      = some (specNotional ((mq : Rat) / (10 : Rat) ^ sq) ((mp : Rat) / (10 : Rat) ^ sp)
+          ((mc : Rat) / (10 : Rat) ^ sc)) := by
+  refine (notional_exact_of_no_rounding _ _ _ (decExact_mul_of_digits mq mp sq sp (by omega) h1) ?_).1
+  rw [div_pow_mul_div_pow]
+  exact decExact_mul_of_digits (mq * mp) mc (sq + sp) sc hs h2
+
+/-- Whatever the real code returns is itself a `Decimal`. -/
+theorem notional_result_is_decimal (q p c v : Rat) (h : notionalDec q p c = some v) :
+    decExact v = true := by
+  unfold notionalDec at h
+  cases h1 : decMul q p with
+  | none => rw [h1] at h; cases h
+  | some x =>
+    rw [h1, Option.bind_some] at h
+    exact decRound_is_decimal h
+
+/-- Of the code: `None` only on overflow — of the exact first product, or of the exact product of the
+STORED (possibly rounded) first product with the contract size. -/
+theorem notional_none_only_on_overflow (q p c : Rat) (h : notionalDec q p c = none) :
+    decFits (q * p) = false ∨ ∃ x, decMul q p = some x ∧ decFits (x * c) = false := by
+  unfold notionalDec at h
+  cases h1 : decMul q p with
+  | none => exact .inl (decMul_none_overflow h1)
+  | some x =>
+    rw [h1, Option.bind_some] at h
+    exact .inr ⟨x, rfl, decMul_none_overflow h⟩
+
+/-- Of the code: a product of magnitude 2^96 or more is always `None`; one of magnitude at most
+2^96 − 1 never is (it may be rounded). -/
+theorem mul_overflow_bounds (a b : Rat) :
+    (((decMantMax + 1 : Nat) : Rat) ≤ (a * b).abs → decMul a b = none) ∧
+    (decFits (a * b) = true → ∃ v, decMul a b = some v) :=
+  ⟨fun h => decRound_none_of_ge h, fun h => decRound_some_of_fits h⟩
+
+/-- What is stored when the code rounds: the mantissa `m` at some scale `e ≤ 28` fits 96 bits and is
+within half a unit of the exact `|x|·10^e` (`x = a·b = num/den`; both differences are in units of
+`1/den`, natural-number subtraction). -/
+theorem mul_rounding_error (a b v : Rat) (h : decMul a b = some v) :
+    ∃ e, e ≤ 28 ∧ mantAt (a * b) e ≤ decMantMax ∧ v = decValue (a * b) (mantAt (a * b) e) e ∧
+      2 * (mantAt (a * b) e * (a * b).den - (a * b).num.natAbs * 10 ^ e) ≤ (a * b).den ∧
+      2 * ((a * b).num.natAbs * 10 ^ e - mantAt (a * b) e * (a * b).den) ≤ (a * b).den := by
+  obtain ⟨e, he, hm, hv⟩ := decRound_shape h
+  exact ⟨e, he, hm, hv, rneDiv_error _ _ (a * b).den_pos⟩
+
+/-- **Witness (review, excluded point 1).** 79228162514264337593543950335 × 0.5 × 2: every exact
+product fits (`decFits`), the exact model returns the exact notional — and the real multiplication
+returns `None`: q·p = 39614081257132168796771975167.5 is not a `Decimal`, it is stored as …168, and
+…168 × 2 = 2^96 overflows. -/
+theorem notional_rounds_then_overflows :
+    notionalDec 79228162514264337593543950335 (1 / 2) 2 = none ∧
+    decMul 79228162514264337593543950335 (1 / 2) = some 39614081257132168796771975168 ∧
+    decExact ((79228162514264337593543950335 : Rat) * (1 / 2)) = false ∧
+    decFits ((79228162514264337593543950335 : Rat) * (1 / 2)) = true ∧
+    decFits ((79228162514264337593543950335 : Rat) * (1 / 2) * 2) = true ∧
+    calculateQuoteNotional decFits 79228162514264337593543950335 (1 / 2) 2
+      = some 79228162514264337593543950335 := by
+  decide +kernel
+
+/-- **Witness (review, excluded point 2).** 10⁻²⁸ × 10⁻²⁸ × 1: the real multiplication returns 0
+(the product 10⁻⁵⁶ has no digit left at scale 28), the exact model 10⁻⁵⁶; the code's result is not
+positive although all three factors are. -/
+theorem notional_underflows_to_zero :
+    notionalDec (1 / 10000000000000000000000000000) (1 / 10000000000000000000000000000) 1 = some 0 ∧
+    calculateQuoteNotional decFits (1 / 10000000000000000000000000000)
+      (1 / 10000000000000000000000000000) 1
+      = some (1 / 100000000000000000000000000000000000000000000000000000000) ∧
+    0 < specNotional (1 / 10000000000000000000000000000) (1 / 10000000000000000000000000000) 1 := by
+  decide +kernel
+
+/-- **Witness (converse direction).** 631 × 125559687027360281447771712.1 × 1: the exact product
+79228162514264337593543950335.1 exceeds the largest `Decimal` (`decFits` false, exact model `None`)
+but the real multiplication rounds it INTO range and returns 2^96 − 1. A product of exactly
+2^96 − ½ (11447 × 6921303617914242822883196.5) ties to the even 2^96 and overflows. -/
+theorem notional_rounds_into_range :
+    notionalDec 631 (1255596870273602814477717121 / 10) 1 = some 79228162514264337593543950335 ∧
+    decFits ((631 : Rat) * (1255596870273602814477717121 / 10)) = false ∧
+    calculateQuoteNotional decFits 631 (1255596870273602814477717121 / 10) 1 = none ∧
+    decMul 11447 (69213036179142428228831965 / 10) = none := by
+  decide +kernel
+
+/-- Ties go to the even mantissa: 7922816251426433759354395033.5 × 3 = …100.5 is stored as …100,
+0.5 × 10⁻²⁸ as 0 and 1.5 × 10⁻²⁸ as 2 × 10⁻²⁸. -/
+theorem mul_ties_to_even :
+    decMul (79228162514264337593543950335 / 10) 3 = some 23768448754279301278063185100 ∧
+    decMul (1 / 10000000000000000000000000000) (1 / 2) = some 0 ∧
+    decMul (3 / 10000000000000000000000000000) (1 / 2) = some (2 / 10000000000000000000000000000) := by
+  decide +kernel
+
+/-- Of the code, unconditionally: quantity and price may be swapped. -/
+theorem notionalDec_swap_quantity_price (q p c : Rat) : notionalDec q p c = notionalDec p q c := by
+  unfold notionalDec; rw [decMul_comm]
+
+/-- Of the code, unconditionally: a zero quantity has zero notional (never `None`). -/
+theorem notional_zero_quantity (p c : Rat) : notionalDec 0 p c = some 0 := by
+  unfold notionalDec; rw [decMul_zero_left, Option.bind_some, decMul_zero_left]
+
+/-- Of the code, on the exactness domain: positive factors give a positive notional (off the domain:
+`notional_underflows_to_zero`). -/
+theorem notional_pos (q p c v : Rat) (h1 : decExact (q * p) = true) (h2 : decExact (q * p * c) = true)
+    (hq : 0 < q) (hp : 0 < p) (hc : 0 < c) (h : notionalDec q p c = some v) : 0 < v := by
+  rw [(notional_exact_of_no_rounding q p c h1 h2).1] at h
+  cases h; exact specNotional_pos q p c hq hp hc
+
+/-- Of the code, on the exactness domain of the three calls: splitting the quantity does not change
+the total notional. -/
+theorem notional_add_quantity (q₁ q₂ p c : Rat)
+    (h1 : decExact (q₁ * p) = true) (h1' : decExact (q₁ * p * c) = true)
+    (h2 : decExact (q₂ * p) = true) (h2' : decExact (q₂ * p * c) = true)
+    (h3 : decExact ((q₁ + q₂) * p) = true) (h3' : decExact ((q₁ + q₂) * p * c) = true) :
+    ∃ v v₁ v₂, notionalDec (q₁ + q₂) p c = some v ∧ notionalDec q₁ p c = some v₁ ∧
+      notionalDec q₂ p c = some v₂ ∧ v = v₁ + v₂ :=
+  ⟨_, _, _, (notional_exact_of_no_rounding _ _ _ h3 h3').1, (notional_exact_of_no_rounding _ _ _ h1 h1').1,
+    (notional_exact_of_no_rounding _ _ _ h2 h2').1, specNotional_add_quantity q₁ q₂ p c⟩
+
+/-! ## E. `calculate_abs_percent_difference` (exact-arithmetic model)
+
+`calculateAbsPercentDifference fits` subtracts and divides EXACTLY (`fits` decides overflow of the
+exact results); the rounding of `checked_sub` / `checked_div` is not modelled (quotients are compared
+with a tolerance). `specApd_*` are laws of the SPEC function |current − other| / |other|; the
+statements about the code's model (`apd_*`) carry the hypotheses under which it equals the spec —
+essentially a positive reference value. -/
 
 /-- Positive reference value (a price): the result is |current − other| / |other|. -/
 theorem apd_refines_spec (fits : Rat → Bool) (c o : Rat) (ho : 0 < o) (h1 : fits (c - o) = true)
@@ -350,13 +573,16 @@ theorem apd_negative_reference (fits : Rat → Bool) (c o v : Rat) (ho : o < 0)
     hne ((specApd_eq_zero_iff (by grind)).mp h0)
   grind
 
+/-- Law of the SPEC function. Code side: `apd_sound_pos` (`0 < other`), `apd_negative_reference`. -/
 theorem specApd_nonneg (c o : Rat) : 0 ≤ specAbsPercentDifference c o :=
   BarterModel.Risk.specApd_nonneg c o
 
+/-- Law of the SPEC function. Code side: `apd_eq_zero_iff`. -/
 theorem specApd_eq_zero_iff (c o : Rat) (ho : o ≠ 0) : specAbsPercentDifference c o = 0 ↔ c = o :=
   BarterModel.Risk.specApd_eq_zero_iff ho
 
-/-- The sign of the deviation does not matter: 5 % above and 5 % below give the same value. -/
+/-- Law of the SPEC function: the sign of the deviation does not matter (5 % above and 5 % below give
+the same value). Code side: `apd_deviation_symmetric`. -/
 theorem specApd_deviation_symmetric (o d : Rat) :
     specAbsPercentDifference (o + d) o = specAbsPercentDifference (o - d) o := by
   unfold specAbsPercentDifference
@@ -364,7 +590,9 @@ theorem specApd_deviation_symmetric (o d : Rat) :
   have h2 : o - d - o = -d := by grind
   rw [h1, h2, Rat.abs_neg]
 
-/-- Unit independence: scaling both values by the same non-zero factor changes nothing. -/
+/-- Law of the SPEC function: scaling both values by the same non-zero factor changes nothing. Of the
+code only for a POSITIVE factor and reference (`apd_scale_invariant`; it fails at k = −1:
+`apd_scale_invariant_fails_negative`). -/
 theorem specApd_scale_invariant (k c o : Rat) (hk : k ≠ 0) (ho : o ≠ 0) :
     specAbsPercentDifference (k * c) (k * o) = specAbsPercentDifference c o := by
   unfold specAbsPercentDifference
@@ -374,8 +602,8 @@ theorem specApd_scale_invariant (k c o : Rat) (hk : k ≠ 0) (ho : o ≠ 0) :
   have ho' : o.abs ≠ 0 := by have := Rat.abs_pos_iff.mpr ho; grind
   grind
 
-/-- It is relative to `other`, so it is not symmetric in its arguments; the two readings are related
-by the ratio of the magnitudes. -/
+/-- Law of the SPEC function: it is relative to `other`, so it is not symmetric in its arguments; the
+two readings are related by the ratio of the magnitudes. Code side: `apd_swap` (positive values). -/
 theorem specApd_swap (c o : Rat) (hc : c ≠ 0) (ho : o ≠ 0) :
     specAbsPercentDifference c o * o.abs = specAbsPercentDifference o c * c.abs := by
   unfold specAbsPercentDifference
@@ -383,28 +611,94 @@ theorem specApd_swap (c o : Rat) (hc : c ≠ 0) (ho : o ≠ 0) :
   have ho' : o.abs ≠ 0 := by have := Rat.abs_pos_iff.mpr ho; grind
   rw [Rat.div_mul_cancel ho', Rat.div_mul_cancel hc', Rat.abs_sub_comm]
 
-/-- "0.05 for a 5% difference". -/
+/-- "0.05 for a 5% difference" (spec function; the code's model: non-vacuity examples below). -/
 theorem specApd_five_percent :
     specAbsPercentDifference 105 100 = 1 / 20 ∧ specAbsPercentDifference 95 100 = 1 / 20 := by
   decide +kernel
 
-/-! ## F. `calculate_delta` -/
+/-! ### the same laws for the code's model -/
 
+/-- Of the code's model, any non-zero reference: the result is zero exactly for equal values. -/
+theorem apd_eq_zero_iff (fits : Rat → Bool) (c o v : Rat)
+    (h : calculateAbsPercentDifference fits c o = some v) : v = 0 ↔ c = o := by
+  obtain ⟨ho, _, _, rfl⟩ := apd_eq_some.mp h
+  constructor
+  · intro h0
+    have h1 : (c - o).abs = 0 := by
+      have := Rat.div_mul_cancel (a := (c - o).abs) ho
+      rw [h0] at this; grind
+    have := Rat.abs_eq_zero_iff.mp h1
+    grind
+  · intro hco; subst hco
+    have : c - c = 0 := by grind
+    rw [this, Rat.abs_zero]; grind
+
+/-- Of the code's model at the 96-bit range, every reference value (zero and negative included): the
+sign of the deviation does not matter. -/
+theorem apd_deviation_symmetric (o d : Rat) :
+    calculateAbsPercentDifference decFits (o + d) o = calculateAbsPercentDifference decFits (o - d) o := by
+  have h1 : o + d - o = d := by grind
+  have h2 : o - d - o = -d := by grind
+  unfold calculateAbsPercentDifference checkedSub
+  rw [h1, h2, decFits_neg]
+  cases decFits d <;> simp [Rat.abs_neg]
+
+/-- Of the code's model: scale invariance for a POSITIVE factor and a positive reference (the
+subtraction of the scaled values must not overflow). -/
+theorem apd_scale_invariant (fits : Rat → Bool) (k c o v : Rat) (hk : 0 < k) (ho : 0 < o)
+    (h1 : fits (k * c - k * o) = true) (h : calculateAbsPercentDifference fits c o = some v) :
+    calculateAbsPercentDifference fits (k * c) (k * o) = some v := by
+  obtain ⟨_, _, hf, hv⟩ := apd_eq_some.mp h
+  rw [code_quotient_pos ho] at hf hv
+  have hko : 0 < k * o := Rat.mul_pos hk ho
+  have hs := specApd_scale_invariant k c o (by grind) (by grind)
+  rw [hv, ← hs]
+  exact apd_refines_spec fits (k * c) (k * o) hko h1 (by rw [hs]; exact hf)
+
+/-- … and it FAILS for a negative factor: (105, 100) gives 0.05, (−105, −100) gives −0.05, while the
+spec function gives 0.05 for both. -/
+theorem apd_scale_invariant_fails_negative :
+    calculateAbsPercentDifference decFits 105 100 = some (1 / 20) ∧
+    calculateAbsPercentDifference decFits (-1 * 105) (-1 * 100) = some (-(1 / 20)) ∧
+    specAbsPercentDifference (-1 * 105) (-1 * 100) = specAbsPercentDifference 105 100 := by
+  decide +kernel
+
+/-- Of the code's model, positive values: the two readings are related by the ratio of the values. -/
+theorem apd_swap (fits : Rat → Bool) (c o v w : Rat) (hc : 0 < c) (ho : 0 < o)
+    (h1 : calculateAbsPercentDifference fits c o = some v)
+    (h2 : calculateAbsPercentDifference fits o c = some w) : v * o = w * c := by
+  have e1 := (apd_sound_pos fits c o v ho h1).1
+  have e2 := (apd_sound_pos fits o c w hc h2).1
+  have := specApd_swap c o (by grind) (by grind)
+  rw [Rat.abs_of_nonneg (Rat.le_of_lt ho), Rat.abs_of_nonneg (Rat.le_of_lt hc)] at this
+  rw [e1, e2]; exact this
+
+/-! ## F. `calculate_delta` (exact-arithmetic model)
+
+`calculateDelta fits` multiplies EXACTLY; `fits` decides only overflow of the exact products. The
+theorems are true of that model for every `fits`; they are statements about the real `Decimal` code
+under the exactness hypothesis of section F′ (`delta_exact_of_no_rounding`). `specDelta_*` are laws
+of the SPEC function. -/
+
+/-- MODEL (exact arithmetic). Of the code only where no product rounds (F′). -/
 theorem delta_sound (fits : Rat → Bool) (d cs q v : Rat) (side : Side)
     (h : calculateDelta fits d cs side q = some v) : v = specDelta d cs side q :=
   (delta_eq_some.mp h).2.2
 
+/-- MODEL (exact arithmetic). Of the code only where no product rounds (F′). -/
 theorem delta_complete (fits : Rat → Bool) (d cs q : Rat) (side : Side)
     (h1 : fits (q * cs) = true) (h2 : fits (d * (q * cs)) = true) :
     calculateDelta fits d cs side q = some (specDelta d cs side q) :=
   delta_eq_some.mpr ⟨h1, h2, rfl⟩
 
-/-- It panics exactly when one of its two unchecked multiplications overflows. -/
+/-- MODEL (exact arithmetic): it panics exactly when one of its two unchecked multiplications overflows
+(overflow of the EXACT products; of the code: `delta_panics_only_on_overflow`). -/
 theorem delta_panics_iff (fits : Rat → Bool) (d cs q : Rat) (side : Side) :
     calculateDelta fits d cs side q = none ↔ fits (q * cs) = false ∨ fits (d * (q * cs)) = false :=
   delta_eq_none
 
-/-- Sell is the negated Buy, including whether it panics. -/
+/-- MODEL (exact arithmetic): Sell is the negated Buy, including whether it panics (of the code:
+`deltaDec_sell_eq_neg_buy`). -/
 theorem delta_sell_eq_neg_buy (fits : Rat → Bool) (d cs q : Rat) :
     calculateDelta fits d cs .sell q = (calculateDelta fits d cs .buy q).map (fun x => -x) := by
   unfold calculateDelta
@@ -412,20 +706,24 @@ theorem delta_sell_eq_neg_buy (fits : Rat → Bool) (d cs q : Rat) :
   | none => rfl
   | some x => cases h : checkedMul fits d x <;> simp [h]
 
-/-- A long and a short of the same size hedge each other. -/
+/-- Law of the SPEC function: a long and a short of the same size hedge each other. Code side:
+`delta_hedge`. -/
 theorem specDelta_hedge (d cs q : Rat) : specDelta d cs .buy q + specDelta d cs .sell q = 0 := by
   unfold specDelta; grind
 
+/-- Law of the SPEC function (code side: through `delta_exact_of_no_rounding`). -/
 theorem specDelta_add_quantity (d cs q₁ q₂ : Rat) (side : Side) :
     specDelta d cs side (q₁ + q₂) = specDelta d cs side q₁ + specDelta d cs side q₂ := by
   cases side <;> unfold specDelta <;> grind
 
-/-- Spot / perpetual / future (instrument delta 1): the delta is the signed exposure. -/
+/-- Law of the SPEC function: spot / perpetual / future (instrument delta 1): the delta is the signed
+exposure. Code side: `delta_linear_instrument`. -/
 theorem specDelta_linear_instrument (cs q : Rat) :
     specDelta 1 cs .buy q = cs * q ∧ specDelta 1 cs .sell q = -(cs * q) := by
   unfold specDelta; constructor <;> grind
 
-/-- "A positive return value indicates long exposure …, negative … short": with a positive
+/-- Law of the SPEC function (code side: `delta_sign`; off the exactness domain the code can return 0,
+`delta_underflows_to_zero`). "A positive return value indicates long exposure …, negative … short": with a positive
 instrument delta, a Buy is long and a Sell is short; a negative instrument delta (puts) flips it. -/
 theorem specDelta_sign (d cs q : Rat) (hcs : 0 < cs) (hq : 0 < q) :
     (0 < d → 0 < specDelta d cs .buy q ∧ specDelta d cs .sell q < 0) ∧
@@ -439,7 +737,8 @@ theorem specDelta_sign (d cs q : Rat) (hcs : 0 < cs) (hq : 0 < q) :
     have := Rat.mul_pos (Rat.mul_pos (show (0 : Rat) < -d by grind) hcs) hq
     constructor <;> grind
 
-/-- An option's delta lies in [−1, 1]: its exposure never exceeds that of the underlying. -/
+/-- Law of the SPEC function (code side: through `delta_exact_of_no_rounding`): an option's delta lies
+in [−1, 1], its exposure never exceeds that of the underlying. -/
 theorem specDelta_bounded (d cs q : Rat) (side : Side) (hd : d.abs ≤ 1) (hcs : 0 ≤ cs) (hq : 0 ≤ q) :
     (specDelta d cs side q).abs ≤ cs * q := by
   have key : (d * cs * q).abs ≤ cs * q := by
@@ -450,7 +749,78 @@ theorem specDelta_bounded (d cs q : Rat) (side : Side) (hd : d.abs ≤ 1) (hcs :
   · exact key
   · rw [Rat.abs_neg]; exact key
 
-/-! ## G. The checks composed with the utilities -/
+/-! ## F′. `calculate_delta` over the real `Decimal` multiplication (`deltaDec`) -/
+
+/-- **The exactness domain.** When both products, in the code's evaluation order
+(`quantity_in_kind · contract_size`, then `instrument_delta · (that)`), are exactly representable,
+the real multiplication returns the documented value (no panic), and coincides with the exact model
+at the 96-bit range. Every `specDelta_*` law is a law of the code on this domain. -/
+theorem delta_exact_of_no_rounding (d cs q : Rat) (side : Side) (h1 : decExact (q * cs) = true)
+    (h2 : decExact (d * (q * cs)) = true) :
+    deltaDec d cs side q = some (specDelta d cs side q) ∧
+    deltaDec d cs side q = calculateDelta decFits d cs side q := by
+  have h := deltaDec_exact (side := side) h1 h2
+  exact ⟨h, by rw [h, delta_complete decFits d cs q side (decFits_of_decExact h1) (decFits_of_decExact h2)]⟩
+
+/-- Of the code, unconditionally: Sell is the negated Buy, including whether it panics. -/
+theorem deltaDec_sell_eq_neg_buy (d cs q : Rat) :
+    deltaDec d cs .sell q = (deltaDec d cs .buy q).map (fun x => -x) := by
+  unfold deltaDec
+  cases decMul q cs with
+  | none => rfl
+  | some x =>
+    rw [Option.bind_some, Option.bind_some]
+    cases h : decMul d x <;> simp
+
+/-- Of the code: a panic only on overflow — of the exact first product, or of the exact product of the
+instrument delta with the STORED (possibly rounded) first product. -/
+theorem delta_panics_only_on_overflow (d cs q : Rat) (side : Side) (h : deltaDec d cs side q = none) :
+    decFits (q * cs) = false ∨ ∃ x, decMul q cs = some x ∧ decFits (d * x) = false := by
+  unfold deltaDec at h
+  cases h1 : decMul q cs with
+  | none => exact .inl (decMul_none_overflow h1)
+  | some x =>
+    rw [h1, Option.bind_some] at h
+    cases h2 : decMul d x with
+    | none => exact .inr ⟨x, rfl, decMul_none_overflow h2⟩
+    | some y => rw [h2] at h; cases h
+
+/-- **Witness (review, excluded point 3).** delta 1, contract size 10⁻²⁸, Buy 10⁻²⁸: the real
+multiplication returns 0, the exact model 10⁻⁵⁶ (positive delta, positive size and quantity, and
+yet no long exposure reported). -/
+theorem delta_underflows_to_zero :
+    deltaDec 1 (1 / 10000000000000000000000000000) .buy (1 / 10000000000000000000000000000) = some 0 ∧
+    calculateDelta decFits 1 (1 / 10000000000000000000000000000) .buy (1 / 10000000000000000000000000000)
+      = some (1 / 100000000000000000000000000000000000000000000000000000000) := by
+  decide +kernel
+
+/-- Of the code, unconditionally: a long and a short of the same size hedge each other whenever the
+code returns at all. -/
+theorem delta_hedge (d cs q b s : Rat) (hb : deltaDec d cs .buy q = some b)
+    (hs : deltaDec d cs .sell q = some s) : b + s = 0 := by
+  rw [deltaDec_sell_eq_neg_buy, hb] at hs
+  cases hs; grind
+
+/-- Of the code, on the exactness domain: instrument delta 1 gives the signed exposure. -/
+theorem delta_linear_instrument (cs q : Rat) (h1 : decExact (q * cs) = true) :
+    deltaDec 1 cs .buy q = some (cs * q) ∧ deltaDec 1 cs .sell q = some (-(cs * q)) := by
+  have h2 : decExact (1 * (q * cs)) = true := by rw [Rat.one_mul]; exact h1
+  rw [(delta_exact_of_no_rounding 1 cs q .buy h1 h2).1, (delta_exact_of_no_rounding 1 cs q .sell h1 h2).1,
+    (specDelta_linear_instrument cs q).1, (specDelta_linear_instrument cs q).2]
+  exact ⟨rfl, rfl⟩
+
+/-- Of the code, on the exactness domain: with a positive instrument delta a Buy is long and a Sell
+short; a negative instrument delta flips it. -/
+theorem delta_sign (d cs q b s : Rat) (h1 : decExact (q * cs) = true)
+    (h2 : decExact (d * (q * cs)) = true) (hcs : 0 < cs) (hq : 0 < q)
+    (hb : deltaDec d cs .buy q = some b) (hs : deltaDec d cs .sell q = some s) :
+    (0 < d → 0 < b ∧ s < 0) ∧ (d < 0 → b < 0 ∧ 0 < s) := by
+  rw [(delta_exact_of_no_rounding d cs q .buy h1 h2).1] at hb
+  rw [(delta_exact_of_no_rounding d cs q .sell h1 h2).1] at hs
+  cases hb; cases hs
+  exact specDelta_sign d cs q hcs hq
+
+/-! ## G. The checks composed with the utilities (exact-arithmetic model; of the code on the exactness domain) -/
 
 /-- A maximum-notional check refuses exactly the orders whose quantity × price × contract size
 exceeds the limit (when nothing overflows). -/
@@ -475,10 +845,33 @@ theorem price_band_check (fits : Rat → Bool) (limit c o : Rat) (ho : 0 < o)
   rcases abs_cases (c - o) with ⟨h, e⟩ | ⟨h, e⟩ <;> rw [e] <;> constructor <;> intro h' <;>
     (try constructor) <;> grind
 
+/-- Of the code, on the exactness domain: a maximum-notional check over the real multiplication refuses
+exactly the orders whose quantity × price × contract size exceeds the limit. -/
+theorem max_notional_check_dec (limit q p c : Rat) (h1 : decExact (q * p) = true)
+    (h2 : decExact (q * p * c) = true) :
+    (∃ v, notionalDec q p c = some v ∧
+        (CheckHigherThan.mk limit).check leRat v = .ok ()) ↔ q * p * c ≤ limit := by
+  rw [(notional_exact_of_no_rounding q p c h1 h2).1]
+  simp [check_dec_passes_iff, specNotional]
+
 /-! ## H. Link with the engine model of C03
 
 The engine model takes the risk manager's verdict as a parameter `refuse : Key → Bool`
-(`Model/Engine.lean: generateAlgoOrders`). `DefaultRiskManager` is the instance `fun _ => false`. -/
+(`Model/Engine.lean: generateAlgoOrders`) and splits the requests by it with four `List.filter`s.
+What is stated here, and what is not:
+
+* `default_is_never_refuse`: the four lists of the MODEL of `DefaultRiskManager::check` are those four
+  filters at `refuse = fun _ => false`. Its right-hand side is the filter expression written out, not
+  a projection of `generateAlgoOrders`.
+* `engine_step_of_risk_output` closes that gap inside the models: for ANY `CheckOut` whose four lists
+  are the four filters of a verdict `refuse`, `Engine.generateAlgoOrders e cancels opens refuse` IS
+  the engine step computed from that `CheckOut` (send the approved requests, record them, report the
+  refused ones); `engine_step_with_default_risk_manager` instantiates it with
+  `DefaultRiskManager.check`.
+* `engine_default_risk_refuses_nothing` is a fact about the engine model at the constant verdict.
+* NOT stated: that the Rust engine calls `RiskManager::check` and routes its four iterators this way —
+  that is the engine model of C03 (tied by C03's own correspondence), and `DefaultRiskManager::check`
+  is tied to its model by sampling only (section B). -/
 
 theorem default_is_never_refuse {σ ρ : Type} (s : σ) (cancels : List BarterModel.Engine.CancelReq)
     (opens : List BarterModel.Engine.OpenReq) :
@@ -494,6 +887,39 @@ theorem engine_default_risk_refuses_nothing (e : BarterModel.Engine.Eng)
     (BarterModel.Engine.generateAlgoOrders e cancels opens (fun _ => false)).2.cancelsRefused = [] ∧
     (BarterModel.Engine.generateAlgoOrders e cancels opens (fun _ => false)).2.opensRefused = [] := by
   simp [BarterModel.Engine.generateAlgoOrders]
+
+/-- The engine step of `generate_algo_orders` computed from a risk manager's OUTPUT (instead of from a
+verdict function): send the approved cancels, then the approved opens, record what was sent, report
+the refused. -/
+def engineStepFrom {ρ : Type} (e : BarterModel.Engine.Eng)
+    (out : CheckOut BarterModel.Engine.CancelReq BarterModel.Engine.OpenReq ρ) :
+    BarterModel.Engine.Eng × BarterModel.Engine.AlgoOut :=
+  let r1 := BarterModel.Engine.sendRequests e BarterModel.Engine.Req.cnl out.items.1
+  let r2 := BarterModel.Engine.sendRequests r1.1 BarterModel.Engine.Req.opn out.items.2.1
+  (BarterModel.Engine.recordOpens (BarterModel.Engine.recordCancels r2.1 r1.2.sent) r2.2.sent,
+    ⟨r1.2, r2.2, out.items.2.2.1, out.items.2.2.2⟩)
+
+/-- The link as a term of the engine model: whenever a risk manager's output is the per-request
+split by a verdict `refuse`, the engine model instantiated with that verdict is the engine step fed
+with that output. -/
+theorem engine_step_of_risk_output {ρ : Type} (e : BarterModel.Engine.Eng)
+    (cancels : List BarterModel.Engine.CancelReq) (opens : List BarterModel.Engine.OpenReq)
+    (refuse : BarterModel.Engine.Key → Bool)
+    (out : CheckOut BarterModel.Engine.CancelReq BarterModel.Engine.OpenReq ρ)
+    (h : out.items = (cancels.filter (fun r => !refuse r.key), opens.filter (fun r => !refuse r.key),
+      cancels.filter (fun r => refuse r.key), opens.filter (fun r => refuse r.key))) :
+    BarterModel.Engine.generateAlgoOrders e cancels opens refuse = engineStepFrom e out := by
+  unfold engineStepFrom
+  rw [h]
+  rfl
+
+/-- … in particular the engine model at `refuse = fun _ => false` is the engine step fed with the
+output of (the model of) `DefaultRiskManager::check`, whatever the state handed to it. -/
+theorem engine_step_with_default_risk_manager {σ ρ : Type} (s : σ) (e : BarterModel.Engine.Eng)
+    (cancels : List BarterModel.Engine.CancelReq) (opens : List BarterModel.Engine.OpenReq) :
+    BarterModel.Engine.generateAlgoOrders e cancels opens (fun _ => false)
+      = engineStepFrom e (DefaultRiskManager.check (ρ := ρ) s cancels opens) :=
+  engine_step_of_risk_output e cancels opens (fun _ => false) _ (default_is_never_refuse s cancels opens)
 
 /-- Any risk manager that decides request by request — the shape the engine model of C03 assumes
 (`refuse : Key → Bool`) — satisfies the `RiskManager` contract `Conserves`. -/
@@ -516,6 +942,20 @@ example : decFits ((2 : Rat) * (201 / 2)) = true ∧ decFits ((2 : Rat) * (201 /
   decide +kernel
 
 example : calculateQuoteNotional decFits 2 (201 / 2) (1 / 100) = some (201 / 100) := by decide +kernel
+
+/-- the exactness hypotheses are satisfiable, also at the edge of the range (2^96 − 1 itself, scale 28) -/
+example : decExact ((2 : Rat) * (201 / 2)) = true ∧ decExact ((2 : Rat) * (201 / 2) * (1 / 100)) = true ∧
+    notionalDec 2 (201 / 2) (1 / 100) = some (201 / 100) ∧
+    decExact (79228162514264337593543950335 : Rat) = true ∧
+    decExact (79228162514264337593543950335 / 10000000000000000000000000000 : Rat) = true ∧
+    decExact (1 / 10000000000000000000000000000 : Rat) = true ∧
+    decExact (79228162514264337593543950336 : Rat) = false ∧
+    decExact (1 / 100000000000000000000000000000 : Rat) = false ∧ decExact (1 / 3 : Rat) = false := by
+  decide +kernel
+
+/-- `deltaDec` on the exactness domain, and its panic -/
+example : deltaDec (1 / 2) 100 .sell 3 = some (-150) ∧
+    deltaDec 2 79228162514264337593543950335 .buy 1 = none := by decide +kernel
 
 example : calculateAbsPercentDifference decFits 105 100 = some (1 / 20) := by decide +kernel
 
@@ -549,8 +989,11 @@ and EVERY `PartialOrd` implementation (the record parameter `T_ord` of the gener
 field `le` is the model's `le`); the three
 arithmetic helpers at `fits = noOverflow` (the translator's `checked_mul` / `checked_sub` never
 overflow) and, for every `fits`, with the same value whenever the model returns one.
+The tie by translation is to the EXACT-arithmetic model; the rounding of `rust_decimal`'s
+multiplication (`decMul`, sections D′ / F′) is outside the translator's prelude and is tied to the
+code by the sampled correspondence (edge-of-range generator, `corpus/C03R/edge.ops`).
 `RiskRefused::new`, `Unrecoverable for RiskRefused` and `DefaultRiskManager::check` are outside the
-translated subset. The statement is that of `KernelsAgree.RiskSM.risk_sm_agree`
+translated subset (sampled correspondence only). The statement is that of `KernelsAgree.RiskSM.risk_sm_agree`
 (Lemmas/KernelsAgree/RiskSM.lean). -/
 theorem kernels_agree_with_source :
     type_of% BarterModel.KernelsAgree.RiskSM.risk_sm_agree :=
